@@ -34,6 +34,16 @@ func runIDs(x *X) {
 		tasks = 8 + c.Intn(57, "tasks64")
 		per = 200 + c.Intn(1400, "per-th")
 	}
+	// the property quantifies over 10^5 concurrent generations: now and then a run does that many
+	// (a generator whose distinguishing part is a short counter only repeats beyond its period)
+	burstOdds := 100
+	if x.Tier == "thorough" {
+		burstOdds = 25
+	}
+	if c.Intn(burstOdds, "burst") == 0 {
+		tasks, per = 4, 25000
+		x.Probe("ids-burst-100k")
+	}
 	x.Sample["config"] = fmt.Sprintf("request_id=%v(%s) trace=%v(%s) tasks=%d x %d requests at one virtual instant", cfg.RequestID.Enabled, rh, cfg.Trace.Enabled, th, tasks, per)
 	x.Logf("ids %s", x.Sample["config"])
 	s := x.StartMicro()
